@@ -2071,6 +2071,15 @@ impl Fs {
                     }
                 }
             }
+            // A pending truncate discards everything at or beyond the new length:
+            // bytes re-exposed by a later extension (set_len or a write past the
+            // end) must read as zeros, not as the old persisted/pending data.
+            if let PendingOp::SetLen { path: p, len, .. } = op {
+                if p == &content_path || self.path_renamed_to(p, &content_path) {
+                    let keep = len.saturating_sub(offset).min(to_read as u64) as usize;
+                    buf[keep..to_read].fill(0);
+                }
+            }
         }
 
         to_read
